@@ -68,6 +68,12 @@ func init() {
 	}
 }
 
+// HasBuiltin reports whether name is a built-in function of the interpreter.
+func HasBuiltin(name string) bool {
+	_, ok := builtinFuncs[name]
+	return ok
+}
+
 func builtinTimeNow(_ *Interpreter, _ []Expr, _ *Environment) (interface{}, error) {
 	return time.Now().Unix(), nil
 }
